@@ -412,7 +412,10 @@ def gen_dag(rng: random.Random, size: int, *, buildable_types=("Config", "Partia
             names.append(pname)
         if names:
           for _ in range(rng.randint(1, 2)):
-            fdl.add_tag(node, rng.choice(names), rng.choice(TAGS))
+            try:
+              fdl.add_tag(node, rng.choice(names), rng.choice(TAGS))
+            except AttributeError:
+              pass  # a **kwargs entry named like a positional-only parameter cannot be tagged by name
     elif r < 0.64:
       node = [pick() for _ in range(rng.randint(0, 4))]
     elif r < 0.74:
